@@ -35,4 +35,14 @@ TrkCtxOf == <<>>
 EmitDPurpose == (hist # <<>> /\ hist[Len(hist)].act \in {"Commit", "Abort"})
                 => LET fresh == hist[Len(hist)].sit \ TLCGet(7)
                    IN fresh # {} => (PrintT(<<"BEH", ToJson(hist)>>) /\ TLCSet(7, TLCGet(7) \cup fresh))
+\* test purposes over several transactions (context + descriptor transactions only): situations that need a history,
+\* e.g. a context descriptor updated while it owns a state that an earlier transaction disassociated and unbound
+HistoryLabels == {"U:upd:owns-unbound-state:commit", "U:upd:owns-unbound-state:abort"}
+EmitCPurpose == (hist # <<>> /\ hist[Len(hist)].act \in {"Commit", "Abort"})
+                => LET fresh == (hist[Len(hist)].sit \cap HistoryLabels) \ TLCGet(7)
+                   IN fresh # {} => (PrintT(<<"BEH", ToJson(hist)>>) /\ TLCSet(7, TLCGet(7) \cup fresh))
+CpH == {"pc", "vmd"}
+CpKind == [h \in CpH |-> IF h = "pc" THEN "ctx" ELSE "comp"]
+CpInitParent == [h \in CpH |-> "ext"]
+CpParents == [h \in CpH |-> {}]
 ====
